@@ -155,8 +155,10 @@ def translate_sources(ctx):
     attempt("operand_enum", lambda: operand_tr.parse_enum(read(f"{REPO}/rspirv/dr/autogen_operand.rs"))[0])
     attempt("asm_arms", lambda: operand_tr.parse_assemble_arms(read(f"{REPO}/rspirv/binary/assemble.rs")))
     attempt("parse_operand", lambda: parse_operand.parse(read(f"{REPO}/rspirv/binary/autogen_parse_operand.rs")))
+    from translate import operand_reflect
+    attempt("operand_reflect", lambda: operand_reflect.parse(read(f"{REPO}/rspirv/dr/autogen_operand.rs")))
     if "operand_enum" in T and "header" in T:
-        glue_gen.gen_operand_full(T["operand_enum"], T["header"], f"{HARNESS}/src/glue_operand.rs")
+        glue_gen.gen_operand_full(T["operand_enum"], T["header"], f"{HARNESS}/src/glue_operand.rs", T.get("operand_reflect"))
     if all(k in T for k in ("operand_enum", "asm_arms", "parse_operand", "decode", "header", "core")):
         try:
             lean_emit.emit_operands(T, "Rspirv.Generated.Operands", f"{GEN}/Operands.lean",
@@ -174,8 +176,6 @@ def translate_sources(ctx):
                 lean_emit.emit_builder(T, "Rspirv.Generated.Builder", f"{GEN}/Builder.lean", "from rspirv/dr/build/autogen_*.rs")
             except TranslateError as e:
                 fails["builder"] = e
-    from translate import operand_reflect
-    attempt("operand_reflect", lambda: operand_reflect.parse(read(f"{REPO}/rspirv/dr/autogen_operand.rs")))
     if all(k in T for k in ("operand_reflect", "operand_enum", "header", "core")):
         try:
             lean_emit.emit_reflect(T, "Rspirv.Generated.Reflect", f"{GEN}/Reflect.lean", "from rspirv/dr/autogen_operand.rs")
@@ -462,6 +462,9 @@ IMPL = os.path.join(HBIN, "impl")
 
 
 def run_impl(ctx, lines, timeout=3600):
+    if os.environ.get("VERIF_SAVE_REQS"):          # author-side: record the request stream (coverage measurement of the tie)
+        with open(os.path.join(os.environ["VERIF_SAVE_REQS"], f"{ctx.prop}.txt"), "a") as f:
+            f.write("\n".join(lines) + "\n")
     rc, out, err = run([IMPL], inp="\n".join(lines) + "\n", timeout=timeout)
     if rc != 0:
         raise RuntimeError(f"harness impl died rc={rc}: " + err[-2000:])
